@@ -70,6 +70,8 @@ SKELETONS = [
     [("snap",), ("poke", "hash", 1), ("snap",), ("poke", "hash", 1), ("snap",), ("steps", 1), ("snap",)],
     [("snap",), ("poke", "r", 0), ("snap",), ("poke", "last_collision", 1), ("snap",), ("poke", "m", 1), ("snap",)],
     [("steps", 2), ("snap",), ("poke", "hash", 0), ("poke", "hash", 2), ("snap",), ("steps", 1), ("snap",)],
+    # there and back: a state numerically (almost) equal to the first snapshot's (the sign of a zero may differ)
+    [("snap",), ("steps", 1), ("integrate_back",), ("snap",), ("steps", 2), ("integrate_back",), ("snap",)],
 ]
 
 history_case = st.fixed_dictionaries({
